@@ -109,7 +109,9 @@ def _mk_constraint(r: random.Random, P, alg):
         if m > 7:
             return None
         ls = [r.choice([0, 0, 0, 1]) for _ in range(m)]
-        us = [max(0, l + r.choice([-1, 0, 1, 2, 2, len(vs)])) for l in ls]
+        # capacities: around the lower bound, the arity, or "unbounded" (far above anything reachable; their sum
+        # does not fit 16 bits)
+        us = [max(0, l + r.choice([-1, 0, 1, 2, 2, len(vs), 40000])) for l in ls]
         return {"vars": vs, "alg": alg, "params": [v0] + ls + us}
     if alg == "lexicographic_leq":
         m = r.choice([1, 2, 2, 3])
